@@ -233,6 +233,8 @@ AlphaAll   == AlphaVel \o AlphaEff \o AlphaSmp \o AlphaShape
 
 GensAll == {[mode |-> m, bank |-> b, vol |-> v] : m \in {"osu", "taiko", "catch", "mania"}, b \in {0, 2}, v \in {100, 60}}
 GensTwo == {[mode |-> "osu", bank |-> 0, vol |-> 100], [mode |-> "mania", bank |-> 2, vol |-> 60]}
+GensFour == {[mode |-> "osu", bank |-> 0, vol |-> 100], [mode |-> "mania", bank |-> 2, vol |-> 60],
+             [mode |-> "taiko", bank |-> 0, vol |-> 60], [mode |-> "osu", bank |-> 2, vol |-> 100]}
 GensModes == {[mode |-> m, bank |-> 0, vol |-> 100] : m \in {"osu", "taiko", "catch", "mania"}}
 
 \* printed once so that the harness can resolve history indices
